@@ -19,7 +19,7 @@ def main():
         if req['family'] in extra.FAMILIES:
             out = extra.run_family(req['family'], req['n'], req.get('tier', 'quick'))
         else:
-            out = scenarios.run_family(req['family'], req['n'], req.get('tier', 'quick'))
+            out = scenarios.run_family(req['family'], req['n'], req.get('tier', 'quick'), pinned=req.get('pinned', ()))
     elif req['op'] == 'replay':
         if req.get('family') in extra.FAMILIES:
             out = extra.replay(req)
